@@ -24,6 +24,7 @@
 (*         alive[1..nres], after[1..nres]   classes 0 free 1 shared        *)
 (*         2 exclusive 3 no cell                                           *)
 (*  setup  via, w0[1..nres], out, created, w1[1..nres]      0 = absent     *)
+(*  exec   w0, out, pres, created, after, w1     World::exec = setup+fetch *)
 (***************************************************************************)
 EXTENDS SysData, TLC, Json, IOUtils
 
@@ -134,12 +135,39 @@ TrSetup ==
   /\ phase' = "setup"
   /\ UNCHANGED <<nres, dflt, rep, drift, sh, held0, borrow>>
 
-Known == {"reset", "decl", "fetch", "setup"}
+\* World::exec = setup, then fetch on the resulting world (nothing held by anybody else)
+TrExec ==
+  /\ Is("exec")
+  /\ LET e == Ev
+         shaped == /\ IsSeqOfLen(e.w0, nres) /\ IsSeqOfLen(e.w1, nres) /\ IsSeqOfLen(e.after, nres)
+                   /\ \A x \in 1..nres : e.w0[x] # dflt[x]
+     IN
+     IF ~wf \/ ~shaped THEN wf' = (wf /\ shaped) /\ UNCHANGED <<ok, drift, world0, world, held0, borrow, outc>>
+     ELSE
+       LET P == {x \in 1..nres : e.w1[x] # Absent}       \* the world the fetch really saw
+           b0 == NoBorrows(1..nres)
+           cls0 == [x \in 1..nres |-> IF x \in P THEN 0 ELSE 3]
+           f == Fetch(sh, P, b0)
+       IN
+       /\ ok' = [ok EXCEPT
+                   !.setupc = @ /\ P_C06_setup(sh, e.w0, dflt, e.created, e.w1),
+                   !.c13 = @ /\ P_C13_world(sh, e.w0, dflt, e.w1),
+                   !.outcome = @ /\ P_C06_outcome(sh, P, b0, e.out),
+                   !.release = @ /\ P_C06_release(cls0, e.after)]
+       /\ drift' = IF e.out \in {"missing", "borrow"} /\ (e.out # f.out \/ e.pres # f.res)
+                   THEN drift + 1 ELSE drift
+       /\ world0' = e.w0 /\ world' = e.w1 /\ held0' = b0 /\ borrow' = b0
+       /\ outc' = [NoRes EXCEPT !.out = e.out, !.res = e.pres, !.created = e.created]
+       /\ wf' = wf
+  /\ phase' = "exec"
+  /\ UNCHANGED <<nres, dflt, rep, sh>>
+
+Known == {"reset", "decl", "fetch", "setup", "exec"}
 TrSkip ==
   /\ l <= Len(Rec) /\ Ev.ev \notin Known /\ l' = l + 1
   /\ UNCHANGED <<nres, dflt, rep, ok, wf, drift>> /\ UNCHANGED vars
 
-TNext == TrReset \/ TrDecl \/ TrFetch \/ TrSetup \/ TrSkip
+TNext == TrReset \/ TrDecl \/ TrFetch \/ TrSetup \/ TrExec \/ TrSkip
 Spec == Init /\ [][TNext]_<<tvars, vars>>
 
 \* ---- property invariants ------------------------------------------------------------
